@@ -38,7 +38,7 @@ def _u(n: ast.AST) -> str:
 
 
 def _ends_in_return(body: List[ast.stmt]) -> bool:
-    return bool(body) and isinstance(body[-1], (ast.Return, ast.Raise))
+    return bool(body) and isinstance(body[-1], (ast.Return, ast.Raise, ast.Continue, ast.Break))
 
 
 def _compound(st: ast.stmt) -> bool:
@@ -64,6 +64,8 @@ def sites(body: List[ast.stmt], needle: str, chain: Optional[List[str]] = None) 
             continue
         if isinstance(st, ast.If):
             t = _u(st.test)
+            if needle in t:  # the test itself touches it
+                out.append((f"test {t}", chain))
             out += sites(st.body, needle, chain + [f"if {t}"])
             out += sites(st.orelse, needle, chain + [f"else {t}"])
             if _ends_in_return(st.body) and not st.orelse:
